@@ -293,4 +293,26 @@ theorem nodup_of_classes {α : Type} (l : List α) (f g : α → Nat)
       · exact this
 
 
+theorem nodup_pairs_of_classes {α : Type} (l : List α) (f g : α → Nat)
+    (h : ∀ a, ((l.filter (fun b => f b == a)).map g).Nodup) : (l.map (fun b => (f b, g b))).Nodup := by
+  induction l with
+  | nil => exact List.nodup_nil
+  | cons b l ih =>
+    rw [List.map_cons, List.nodup_cons]
+    constructor
+    · intro hb
+      obtain ⟨c, hc, hceq⟩ := List.mem_map.1 hb
+      simp only [Prod.mk.injEq] at hceq
+      have := h (f b)
+      simp only [List.filter_cons, beq_self_eq_true, if_true, List.map_cons, List.nodup_cons] at this
+      apply this.1
+      exact List.mem_map.2 ⟨c, List.mem_filter.2 ⟨hc, by simp [hceq.1]⟩, hceq.2⟩
+    · apply ih
+      intro a
+      have := h a
+      simp only [List.filter_cons] at this
+      split at this
+      · simp only [List.map_cons, List.nodup_cons] at this; exact this.2
+      · exact this
+
 end OasisProofs.C09
